@@ -241,6 +241,62 @@ fn reimport_changes_nothing() -> Vec<Case> {
     out
 }
 
+/// "Within one interpreter": a module loaded by one program is still loaded, with its state, for the next
+/// program fed to the same interpreter - whatever the first program ended with (normally, an uncaught
+/// throw at top level, in a function, in a function of the module, in a fiber, a failing import), also with
+/// a program that does not compile in between.  The expectation is written out by hand (the reference
+/// evaluator runs one program at a time).
+fn across_programs() -> Vec<crate::expect::Expect> {
+    let mut modules = BTreeMap::new();
+    modules.insert("a".to_string(), "print(\"load a\");\nvar name = \"a\";\nfn f() { return name; }\nfn set(v) { name = v; }\nfn fails() { throw \"from a\"; }\n".to_string());
+    modules.insert("b".to_string(), "print(\"load b\");\nimport \"a\";\nfn ask() { return a.f(); }\n".to_string());
+    let fails: Vec<(&str, &str)> = vec![
+        ("", "ok"),
+        ("throw \"top\";\n", "Unhandled exception: top"),
+        ("fn g() { [][1]; }\ng();\n", "Unhandled IndexError"),
+        ("a.fails();\n", "Unhandled exception: from a"),
+        ("Fiber.new(|| { throw \"in fiber\"; }).call();\n", "Unhandled exception: in fiber"),
+        ("import \"nowhere\";\n", "Unhandled ImportError"),
+    ];
+    let seconds: Vec<(&str, Vec<&str>)> = vec![
+        ("import \"a\";\nprint(a.name);\nprint(a.f());\n", vec!["changed", "changed"]),
+        ("fn later() { import \"a\"; return a.f(); }\nprint(later());\n", vec!["changed"]),
+        ("import \"b\";\nprint(b.ask());\n", vec!["load b", "changed"]),
+        ("import \"a\" as again;\nprint(again.name);\nagain.set(\"changed again\");\nprint(a.f());\n", vec!["changed", "changed again"]),
+    ];
+    let mut out = Vec::new();
+    for (fail, end) in &fails {
+        for with_compile_error in [false, true] {
+            for (second, second_out) in &seconds {
+                let mut snippets = vec![format!("import \"a\";\nprint(a.name);\na.set(\"changed\");\n{}", fail)];
+                let mut outs: Vec<Vec<String>> = vec![vec!["load a".into(), "a".into()]];
+                let mut ends: Vec<String> = vec![end.to_string()];
+                if with_compile_error {
+                    snippets.push("var = ;\n".into());
+                    outs.push(vec![]);
+                    ends.push("[module \"main\", line 1] Error".into());
+                }
+                snippets.push(second.to_string());
+                outs.push(second_out.iter().map(|s| s.to_string()).collect());
+                ends.push("ok".into());
+                // and once more: still loaded
+                snippets.push("import \"a\";\nprint(a.f() == a.name);\n".into());
+                outs.push(vec!["true".into()]);
+                ends.push("ok".into());
+                out.push(crate::expect::Expect {
+                    family: "module_stays_loaded_across_programs",
+                    request: proto::Request { op: "run".into(), snippets: snippets.clone(), modules: modules.clone(), fuel: Some(1_000_000), ..Default::default() },
+                    out: outs,
+                    end: ends,
+                    describe: json!({"programs": snippets}),
+                    nontrivial: true,
+                });
+            }
+        }
+    }
+    out
+}
+
 // ---- exceptions that cross module frames: the importer catches what a module body, or a function
 // ---- defined in another module, threw, and then goes on using its own globals
 #[derive(Clone, Copy, Debug, PartialEq)]
@@ -437,9 +493,15 @@ pub fn run(ctx: &Ctx) -> Report {
     mcheck::fill_report(
         &mut report,
         &stats,
-        "every import graph over {main, a, b, c}: each of the 6 module-to-module edges, 3 self-loops and 3 edges from main independently present or absent (4096 graphs; the quick tier skips those where main imports nothing); every import inside a module sits in its own try/catch and is followed by a use; every module prints when its body runs, defines the same global names, and reads every one of the 30 built-in names; main reads, writes and calls through each module object, imports it again under an alias and compares identity, and probes that nothing leaked. Plus placements: import inside a function called 0/1/2 times, missing and uncompilable modules (caught, uncaught, aliased), a path with a directory, a three-module cycle. Plus `reimport_changes_nothing`: a module that defines globals under names built-ins also have and receives attributes from outside, imported again in every ordered pair of six ways (alias, same name, in a function, in a fiber, in try, through another module) with the module's and the importer's view printed after each. Plus exceptions that cross module frames: a module body that throws / imports a missing, an uncompilable, its importing (cycle) or a throwing module without a handler, or a function of another module that throws / fails an import / throws through its own finally; caught in the importer (main or a module) directly, through a function, or after a finally block that itself uses globals; straight after the handler the importer reads, defines and assigns its own globals and the check confirms where they landed. Plus fibers whose code lives in another module (made by a function of that module, stored in it, or built here from its function), run to their end from main or from a module that then uses its own globals at once. non-trivial = at least two module bodies ran, or an import failed.",
+        "every import graph over {main, a, b, c}: each of the 6 module-to-module edges, 3 self-loops and 3 edges from main independently present or absent (4096 graphs; the quick tier skips those where main imports nothing); every import inside a module sits in its own try/catch and is followed by a use; every module prints when its body runs, defines the same global names, and reads every one of the 30 built-in names; main reads, writes and calls through each module object, imports it again under an alias and compares identity, and probes that nothing leaked. Plus placements: import inside a function called 0/1/2 times, missing and uncompilable modules (caught, uncaught, aliased), a path with a directory, a three-module cycle. Plus 48 sequences of three or four programs on one interpreter (a module loaded by the first program - which ends normally or with one of five uncaught errors, optionally followed by a program that does not compile - is still loaded, with its state, for the next programs, imported at top level, in a function, through another module, under an alias). Plus `reimport_changes_nothing`: a module that defines globals under names built-ins also have and receives attributes from outside, imported again in every ordered pair of six ways (alias, same name, in a function, in a fiber, in try, through another module) with the module's and the importer's view printed after each. Plus exceptions that cross module frames: a module body that throws / imports a missing, an uncompilable, its importing (cycle) or a throwing module without a handler, or a function of another module that throws / fails an import / throws through its own finally; caught in the importer (main or a module) directly, through a function, or after a finally block that itself uses globals; straight after the handler the importer reads, defines and assigns its own globals and the check confirms where they landed. Plus fibers whose code lives in another module (made by a function of that module, stored in it, or built here from its function), run to their end from main or from a module that then uses its own globals at once. non-trivial = at least two module bodies ran, or an import failed.",
         json!({"modules": 4, "graphs": total}),
     );
+    // several programs on one interpreter
+    let across = across_programs();
+    let n_across = across.len();
+    let xs = crate::expect::run_expect(ctx, &ctx.runner_checked, across.into_iter(), &|_e, _r| None, &|_e, _p| None);
+    report.cov("programs_sequences_on_one_interpreter", json!(n_across));
+    report.violations.extend(xs.violations);
     report.assumptions = vec!["importing a module again after its body threw is outside the property's statement and outside the alphabet (X)".into()];
     record_known(&mut report, &active, &stats.attributed);
     report.violations.extend(stats.violations);
